@@ -8,48 +8,48 @@ open Rs1090.Spec.Dedup (firstT closes WellFormed members recordOf records sortBy
 
 /-! ### The two copies carry the same operators
 
-These three lemmas are where a changed operator or constant of decode1090's copy stops the proofs (they are
-restated as `Props/C10.lean: copies_agree`). -/
+`CopiesAgree` is what the lemmas on decode1090's copy need of the operators extracted from it; it is proved,
+by name, in `Props/C10.lean: copies_agree_ops` — that is where a changed operator, constant or a removed
+flush of decode1090's copy stops the proofs. -/
 
-theorem notExpiredD_eq (curtime t : Nat) :
-    Gen.Dedup.Decode1090.notExpired curtime t = Gen.Dedup.Jet.notExpired curtime t := rfl
+structure CopiesAgree : Prop where
+  notExpired : ∀ curtime t, Gen.Dedup.Decode1090.notExpired curtime t = Gen.Dedup.Jet.notExpired curtime t
+  expiry : ∀ t w, Gen.Dedup.Decode1090.expiry t w = Gen.Dedup.Jet.expiry t w
+  isFirst : ∀ len, Gen.Dedup.Decode1090.isFirst len = Gen.Dedup.Jet.isFirst len
+  flushD : Gen.Dedup.Decode1090.flushAtEof = true
+  flushJ : Gen.Dedup.Jet.flushAtEof = false
 
-theorem expiryD_eq (t w : Nat) : Gen.Dedup.Decode1090.expiry t w = Gen.Dedup.Jet.expiry t w := rfl
-
-theorem isFirstD_eq (len : Nat) : Gen.Dedup.Decode1090.isFirst len = Gen.Dedup.Jet.isFirst len := rfl
-
-theorem expireD_eq (t : Nat) : ∀ (n : Nat) (s : State), expireD t n s = expire t n s
+theorem expireD_eq (ha : CopiesAgree) (t : Nat) : ∀ (n : Nat) (s : State), expireD t n s = expire t n s
   | 0, _ => rfl
   | n + 1, s => by
-    simp only [expireD, expire, notExpiredD_eq]
+    simp only [expireD, expire, ha.notExpired]
     cases popMin s.heap with
     | none => rfl
     | some kh =>
       simp only
       cases remove s.cache kh.1.2 with
-      | none => simp only [expireD_eq t n]
-      | some v => simp only [expireD_eq t n]
+      | none => simp only [expireD_eq ha t n]
+      | some v => simp only [expireD_eq ha t n]
 
-theorem stepGD_eq (w : Nat) (s : State) (a : Arrival) : stepGD w s a = stepG w s a := by
-  simp only [stepGD, stepG, expireD_eq, isFirstD_eq, expiryD_eq]
-  rfl
+theorem stepGD_eq (ha : CopiesAgree) (w : Nat) (s : State) (a : Arrival) : stepGD w s a = stepG w s a := by
+  simp only [stepGD, stepG, expireD_eq ha, ha.isFirst, ha.expiry]
 
-theorem runD_eq (w : Nat) (dec : Frame → Bool) : ∀ (hist : List Arrival) (s : State),
+theorem runD_eq (ha : CopiesAgree) (w : Nat) (dec : Frame → Bool) : ∀ (hist : List Arrival) (s : State),
     runD w dec s hist = run w dec s hist
   | [], _ => rfl
   | a :: as, s => by
-    simp only [runD, run, step, stepGD_eq, runD_eq w dec as]
+    simp only [runD, run, step, stepGD_eq ha, runD_eq ha w dec as]
 
 /-- decode1090: the records of the loop, then the flush -/
-theorem runFlush_eq (w : Nat) (dec : Frame → Bool) (hist : List Arrival) :
+theorem runFlush_eq (ha : CopiesAgree) (w : Nat) (dec : Frame → Bool) (hist : List Arrival) :
     runFlush w dec hist = (run w dec init hist).2 ++
       (flush (run w dec init hist).1.heap.length (run w dec init hist).1).flatMap (emit dec) := by
-  simp [runFlush, runD_eq, Gen.Dedup.Decode1090.flushAtEof]
+  simp [runFlush, runD_eq ha, ha.flushD]
 
 /-- jet1090: the records of the loop, and nothing when the channel closes -/
-theorem runClose_eq (w : Nat) (dec : Frame → Bool) (hist : List Arrival) :
+theorem runClose_eq (ha : CopiesAgree) (w : Nat) (dec : Frame → Bool) (hist : List Arrival) :
     runClose w dec hist = (run w dec init hist).2 := by
-  simp [runClose, Gen.Dedup.Jet.flushAtEof]
+  simp [runClose, ha.flushJ]
 
 /-! ### The groups a file is cut into -/
 
@@ -78,12 +78,12 @@ theorem fileGroups_members (w : Nat) (hist : List Arrival) : hist.Perm (members 
   simp only [fileGroups, members_append]
   exact ((List.Perm.append_left _ (members_perm (sortBy_perm _))).trans h).symm
 
-theorem runFlush_groups (w : Nat) (dec : Frame → Bool) (hist : List Arrival) :
+theorem runFlush_groups (ha : CopiesAgree) (w : Nat) (dec : Frame → Bool) (hist : List Arrival) :
     runFlush w dec hist = records dec (fileGroups w hist) := by
   have hinv := inv_runG (w := w) hist (inv_init w)
   have hwf : ∀ g ∈ sortBy (runG w init hist).1.cache, WellFormed g := fun g hg =>
     hinv.wf g ((sortBy_perm _).subset hg)
-  rw [runFlush_eq, run_eq dec hist (inv_init w)]
+  rw [runFlush_eq ha, run_eq dec hist (inv_init w)]
   simp only [fileGroups, flush_eq_sortBy hinv, flatMap_emit dec hwf, records_append]
 
 /-- the members of well-formed groups whose own frame decodes = the members of the groups whose frame decodes -/
